@@ -93,6 +93,9 @@ def gen_history(rng, nops, acct):
                 for o in range(bs):
                     preload[str(b + o)] = rng.getrandbits(8)
     ops = []
+    lastw, lastany = {}, [0]
+    if rng.random() < 0.04:
+        nops *= 5  # counters of one history pass 256 / 512
     for _ in range(nops):
         b = rng.choice(bases)
         w = rng.choice([1, 2, 4])
@@ -119,7 +122,19 @@ def gen_history(rng, nops, acct):
             a -= 1 << 32
         elif spell < 0.1:
             a += 1 << 32
-        v = rng.choice([0, M32, rng.getrandbits(32)]) & ((1 << (8 * w)) - 1)
+        v = rng.choice([0, M32, rng.getrandbits(32)])
+        vc = rng.random()
+        if vc < 0.3:
+            # value coincidences: the value last stored here (silent store), the value last stored anywhere, the
+            # address itself, its word / block number, its tag or index, a small count
+            am = a & M32
+            v = rng.choice([lastw.get((am, w), v), lastany[0], am, am >> 2, am // bs, am // (bs * nsets), (am // bs) % nsets, cfg["assoc"], len(ops) & 0xFF, w])
+        v &= (1 << (8 * w)) - 1
+        if op == "w":
+            lastw[(a & M32, w)] = v
+            lastany[0] = v
+        if ops and rng.random() < 0.04:
+            op, a, w, v = ops[-1]  # exact repeat of the previous operation
         ops.append([op, a, w, v])
     if preload and rng.random() < 0.12:
         # a memory that was only LOOKED at (uncounted reads: print-string ecall, visualisation) and is then reset
@@ -843,7 +858,9 @@ def run_prog(case, res, prop):
             c5 = {"kind": "pipe", "prog": case["prog"], "regs": case["regs"], "mem": case["mem"], "hz": False, "dcache": dc, "icache": ic, "max_instr": case["max_instr"]}
             ref = TimedRef(prog, case["regs"], case["mem"], interlock=False)
             ref.run(case["max_instr"])
-            if ref.fault or ref.timeout:
+            if ref.fault or ref.timeout or ref.crossing:
+                # (a stale pointer of the interlock-free pipeline may be unaligned: a data cache rejects the
+                # word-crossing access by design, an uncached memory accepts it - not a transparency matter)
                 fin = None
                 break
             out = pipe.run_five(c5, res, prop, ref)
